@@ -20,6 +20,18 @@ import (
 
 var errSource = errors.New("injected read failure")
 
+// the error values a failing source returns: a private one, and values of the
+// standard library that a lexer might be tempted to treat like io.EOF
+var c10Errs = map[string]error{
+	"":              errSource,
+	"unexpectedEOF": io.ErrUnexpectedEOF,
+	"closedPipe":    io.ErrClosedPipe,
+	"wrappedEOF":    fmt.Errorf("read: %w", io.EOF),
+	"noProgress":    io.ErrNoProgress,
+}
+
+var c10ErrKinds = []string{"unexpectedEOF", "closedPipe", "wrappedEOF", "noProgress"}
+
 // faultScanner delivers the first K runes of S and fails from then on.
 type faultScanner struct {
 	s         string
@@ -29,13 +41,14 @@ type faultScanner struct {
 	lastSize  int
 	delivered bool // the failure has been returned at least once
 	once      bool // the failure is transient: returned once, then the source goes on
+	err       error
 }
 
 func (f *faultScanner) ReadRune() (rune, int, error) {
 	if f.n >= f.k && !(f.once && f.delivered) {
 		f.delivered = true
 		f.lastSize = 0
-		return 0, 0, errSource
+		return 0, 0, f.err
 	}
 	if f.off >= len(f.s) {
 		f.lastSize = 0
@@ -66,12 +79,13 @@ type faultReader struct {
 	off       int
 	delivered bool
 	once      bool
+	err       error
 }
 
 func (f *faultReader) Read(p []byte) (int, error) {
 	if f.off >= f.k && !(f.once && f.delivered) {
 		f.delivered = true
-		return 0, errSource
+		return 0, f.err
 	}
 	end := f.k
 	if end > len(f.s) || f.delivered {
@@ -96,6 +110,8 @@ type c10Case struct {
 	// before the failure is then a legitimate answer; what remains is: the
 	// call returns, with an error, which is the read error or a parser.Error.
 	Any bool `json:"any,omitempty"`
+	// Err selects the error value (see c10Errs); empty: a private error.
+	Err string `json:"err,omitempty"`
 }
 
 // checkC10 returns whether the fault was delivered.
@@ -103,10 +119,10 @@ func checkC10(c c10Case) (bool, error) {
 	var src interface{}
 	var delivered func() bool
 	if c.Reader == "reader" {
-		fr := &faultReader{s: c.Src, k: c.K, once: c.Once}
+		fr := &faultReader{s: c.Src, k: c.K, once: c.Once, err: c10Errs[c.Err]}
 		src, delivered = fr, func() bool { return fr.delivered }
 	} else {
-		fs := &faultScanner{s: c.Src, k: c.K, once: c.Once}
+		fs := &faultScanner{s: c.Src, k: c.K, once: c.Once, err: c10Errs[c.Err]}
 		src, delivered = fs, func() bool { return fs.delivered }
 	}
 	type res struct {
@@ -131,13 +147,13 @@ func checkC10(c c10Case) (bool, error) {
 		c.Reader += " (one transient failure)"
 	}
 	if r.err == nil {
-		return true, fmt.Errorf("the %s failed after %d units of %q, but ParseCommands returned a nil error (%d commands)", c.Reader, c.K, c.Src, len(r.cmds))
+		return true, fmt.Errorf("the %s failed (%v) after %d units of %q, but ParseCommands returned a nil error (%d commands)", c.Reader, c10Errs[c.Err], c.K, c.Src, len(r.cmds))
 	}
 	if _, isSyntax := r.err.(parser.Error); c.Any && isSyntax {
 		return true, nil
 	}
-	if !errors.Is(r.err, errSource) {
-		return true, fmt.Errorf("the %s failed after %d units of %q, but ParseCommands returned %q instead of the read error", c.Reader, c.K, c.Src, r.err)
+	if r.err != c10Errs[c.Err] && !errors.Is(r.err, c10Errs[c.Err]) || c.Err == "wrappedEOF" && r.err == io.EOF {
+		return true, fmt.Errorf("the %s failed after %d units of %q with %q, but ParseCommands returned %q instead of the read error", c.Reader, c.K, c.Src, c10Errs[c.Err], r.err)
 	}
 	return true, nil
 }
@@ -194,8 +210,10 @@ func TestC10(t *testing.T) {
 					fail(tt, "C10", "fault", c, "%v", err)
 				}
 				if delivered {
-					// the same position with a failure that goes away again
+					// the same position with a failure that goes away again, and
+					// with an error value of the standard library
 					c.Once = true
+					c.Err = c10ErrKinds[k%len(c10ErrKinds)]
 					jr.begin("C10", "fault", c)
 					_, err := checkC10(c)
 					jr.end()
@@ -203,6 +221,17 @@ func TestC10(t *testing.T) {
 						fail(tt, "C10", "fault", c, "%v", err)
 					}
 					st.Class("transient_fault_delivered_" + reader)
+					if k%3 == 0 {
+						c.Once = false
+						c.Err = c10ErrKinds[(k/3)%len(c10ErrKinds)]
+						jr.begin("C10", "fault", c)
+						_, err := checkC10(c)
+						jr.end()
+						if err != nil {
+							fail(tt, "C10", "fault", c, "%v", err)
+						}
+						st.Class("persistent_fault_with_stdlib_error_value")
+					}
 				}
 				if !delivered {
 					st.EvalN(1, 0)
